@@ -565,20 +565,23 @@ def _classify_value(eng, fd, pl, bi, line, depth, payload=False, _def=None):
                 # the items: one container, or a sequence put together from separate values (then the predicate is a test of each of them)
                 elems = _seq_parts(eng, fd, x['args'][0]) or [fd.read_op(x['args'][0])]
                 g0 = _classify_value(eng, cfd, {'l': 0}, bi, line, depth + 1)
-                stack = [g0]
+                stack = [(g0, ())]
                 while stack:
-                    g2 = stack.pop()
+                    g2, inside = stack.pop()
                     if g2.kind == 'multi':
-                        stack.extend(g2.args or [])
+                        # parts of `a && b` / `a || b` in the predicate: what the predicate's verdict says about one part depends on the connective
+                        stack.extend((g3_, inside + ((g2.chain,) if g2.chain else ())) for g3_ in (g2.args or []))
                         continue
                     if g2.kind in ('match', 'opaque'):
                         continue
+                    if inside and g2.chain is None:
+                        g2.chain = 'in:' + ','.join(inside)
                     if g2.kind == 'deleg' and getattr(eng, '_ga', None) is not None and depth < 6 and g2.callee in eng.prog.bodies:
                         # the predicate hands the item to a local function (`all(|side| Self::verify_of_square(side.proof, g, h, n))`): what
                         # that function's verdict depends on, first in the predicate's terms (when it has one way to succeed), then in ours
                         alts = eng._ga._lift_paths(cfd, g2.callee, g2.args, True, (body.path, cfd.body.path), want=(g2.truth is not False), targs=g2.targs) or []
                         if len(alts) == 1 and alts[0]:
-                            stack.extend(g3 for g3 in alts[0] if g3.kind != 'deleg')
+                            stack.extend((g3, inside) for g3 in alts[0] if g3.kind != 'deleg')
                             continue
                     for elem in elems:
                         ops2 = []
@@ -598,6 +601,8 @@ def _classify_value(eng, fd, pl, bi, line, depth, payload=False, _def=None):
                         ng = Gate(g2.kind if g2.kind != 'deleg' else 'call', g2.what, ops2, g2.fn, bi, line, g2.callee, None, None, g2.const_ops)
                         ng.oargs = g2.oargs
                         ng.quant = callee
+                        if isinstance(g2.chain, str) and g2.chain.startswith('in:'):
+                            ng.chain = g2.chain
                         subs.append(ng)
                 g = Gate('multi', 'quantified:' + short, [whole.all_atoms()], body.path, bi, line)
                 g.args = subs
@@ -669,6 +674,8 @@ def _classify_value(eng, fd, pl, bi, line, depth, payload=False, _def=None):
                         gc = Gate('call', y.get('callee'), [fd.read_op(o_) for o_ in y['args']], body.path, bi, x.get('line', line), callee=y.get('callee'), args=y['args'])
                         other = [o_ for o_ in x['args'] if o_ is not a_]
                         gc.const_ops = [str(c_[1]).split('::')[-1] for o_ in other for c_ in fd.read_op(o_) if c_[0] in ('c', 'a')]
+                        if callee.endswith('::ne'):
+                            gc.negated = True        # `!= Ordering::X`: the ordering call is "equal to X" the other way round
                         return gc
                     break
         ops = []
@@ -818,6 +825,8 @@ class GateAnalysis:
                 pt = None
             elif g.chain == 'mixed':
                 pt = None
+            if pt is None and g.truth is not None and s.kind != 'multi' and s.chain is None:
+                s.chain = 'unfixed'       # the connective, not the analysis, leaves this part's outcome open
             s.truth = pt if (not s.negated or pt is None) else (not pt)
             s.dom = g.dom
             out.extend(self._flatten(s))
@@ -1017,6 +1026,11 @@ class GateAnalysis:
                 lifted_alts = self._lift_paths(fd, dg.callee, dg.args, dg.dom, _stack + (path,), want=(dg.truth is not False), targs=dg.targs)
                 if not lifted_alts:
                     lifted_alts = [[]]
+                if dg.truth is None and dg.chain == 'unfixed':
+                    # the callee's verdict is one part of `f(a) || g(b)` handed back: which way it went is not known, nor are its own tests
+                    for la_ in lifted_alts:
+                        for g_ in la_:
+                            g_.truth = None
                 new = []
                 for c in combos:
                     for la in lifted_alts:
